@@ -59,6 +59,17 @@ let () = iter_lines (fun line ->
   | ["idle"; h] ->
       let s = bytes_of_hex h in
       show_flat "idle" (run_flat (idle_tags (nat_of_int (List.length s + 1))) s)
+  | ["utags"; spec; h] ->
+      let s = bytes_of_hex h in
+      let tbl = List.map (fun e -> match String.split_on_char '=' e with
+                                   | [id; nv] -> (bytes_of_hex id, z_of_int (int_of_string nv))
+                                   | _ -> failwith ("bad known " ^ e)) (split_on ',' spec) in
+      let known id = List.assoc_opt id tbl in
+      (match run_flat (update_tags (nat_of_int (List.length s + 1)) known) s with
+       | FOk (_, _) -> print_string "utags ok\n"
+       | FErr _ -> print_string "utags err\n"
+       | FPanic _ -> print_string "utags panic\n"
+       | FFuel -> print_string "utags fuel\n")
   | ["reg"; entries; h] ->
       let s = bytes_of_hex h in
       show_flat "reg" (run_flat (registry_read (otab entries) (nat_of_int (List.length s + 1))) s)
